@@ -2,6 +2,11 @@ import KoordVerif.Model.C06
 import KoordVerif.Proofs.C06Numa
 import KoordVerif.Proofs.C06Ledger
 import KoordVerif.Proofs.C06Pick
+import KoordVerif.Proofs.C06ExtAmp
+import KoordVerif.Proofs.C06ExtConc
+import KoordVerif.Proofs.C06ExtAlloc
+import KoordVerif.Proofs.C06ExtPolicy
+import KoordVerif.Proofs.C06ExtPolicyFull
 /-
 C06 — CPU and NUMA allocations are exact, disjoint and within capacity.
 
@@ -281,6 +286,136 @@ example :
   simp at hop
   rcases hop with rfl | rfl | rfl | rfl | rfl <;> simp [OpOK, PodOK]
 
+/-! ## Amplified NUMA capacities (util.go `amplifyNUMANodeResources`, plugin.go `getResourceOptions`,
+       node_allocation.go `getAvailableNUMANodeResources`) -/
+
+/-- **capacity(node) = raw × ratio is a pure function of the stored topology**: however many
+    scheduling steps fetch their options, each sees exactly `amplifyCaps ratio raw` (the code
+    amplifies a deep copy; the store is returned unchanged). -/
+theorem options_idempotent (num den : Int) (k : Nat) (st : Stored) :
+    optionsSeen (getOptions num den) k st = List.replicate k (amplifyCaps num den st.caps) :=
+  optionsSeen_getOptions num den k st
+
+/-- the shape that amplifies the shared resource maps in place is NOT idempotent: raw cpu 4 with
+    ratio 2 is seen as 8, 16, 32 by three consecutive scheduling steps. -/
+theorem options_inplace_counterexample :
+    ¬ (∀ (num den : Int) (k : Nat) (st : Stored),
+        optionsSeen (getOptionsInPlace num den) k st = List.replicate k (amplifyCaps num den st.caps)) := by
+  intro h
+  have := h 2 1 3 { caps := [(0, 4000)] }
+  revert this; decide
+
+/-- a ratio ≤ 1 (or no annotation, `0/1`) leaves every capacity as stored. -/
+theorem options_unamplified (num den : Int) (h : num ≤ den) (caps : List (Nat × Int)) :
+    amplifyCaps num den caps = caps := by
+  unfold amplifyCaps
+  have : ∀ e : Nat × Int, (if isCpuCell e.1 then (e.1, amplify num den e.2) else e) = e := by
+    intro e; simp [amplify, h]
+  simp [this]
+
+/-- `getAvailableNUMANodeResources` (with the cpu amplification correction) never reports more than
+    capacity minus what the live pods have recorded on that cell. -/
+theorem numa_available_within (num den : Int) (nodeOf : Nat → Nat) (cap : Int) (L : Ledger) (k : Nat)
+    (hden : 0 < den) : availableCellAmp num den nodeOf cap L k ≤ max (cap - getI L.res k) 0 :=
+  available_le num den nodeOf cap L k hden
+
+/-- **within capacity**: if every recorded NUMA amount is drawn from "capacity − recorded" of its
+    moment (which `numa_available_within` + `numa_exact_and_within` give for what Allocate hands
+    out), then after ANY history of add / update / release no (node, resource) cell holds more
+    than its capacity — for the amplified capacity `raw × ratio` just as for the raw one. -/
+theorem numa_within_capacity (cap : Nat → Int) (hcap : ∀ k, 0 ≤ cap k) (ops : List Op)
+    (hok : ∀ op ∈ ops, OpOK op) (hdr : AllNumaDrawn cap Ledger.empty ops) (k : Nat) :
+    cellSum (run ops).pods k ≤ cap k := by
+  rw [← ledger_numa ops hok k]
+  exact numa_capacity_from ops _ inv_empty (fun k => by simpa [Ledger.empty, getI] using hcap k) hok hdr k
+
+-- non-vacuity: raw cpu 4 on node 1 with ratio 3/2 gives capacity 6; two pods take 4 + 2, one is updated
+example :
+    let cap : Nat → Int := getI (amplifyCaps 3 2 [(16, 4000), (17, 8000)])
+    let p1 : PodAlloc := { uid := 1, excl := 0, cpus := [], numa := [(16, 4000)] }
+    let p2 : PodAlloc := { uid := 2, excl := 0, cpus := [], numa := [(16, 2000), (17, 8000)] }
+    let p1' : PodAlloc := { uid := 1, excl := 0, cpus := [], numa := [(16, 3500)] }
+    let ops := [Op.upd p1, Op.upd p2, Op.upd p1']
+    cap 16 = 6000 ∧ AllNumaDrawn cap Ledger.empty ops ∧ getI (run ops).res 16 = 5500 := by
+  refine ⟨by decide, ?_, by decide⟩
+  simp only [AllNumaDrawn, NumaDrawn, and_true]
+  refine ⟨?_, ?_, ?_⟩ <;> intro k <;> simp [cellOf, step, updatePod, releasePod, addPod, findPod, hasPod,
+    Ledger.empty, getI, addCell, resSet, relCell, resHas, amplifyCaps, isCpuCell, amplify] <;> (repeat' split) <;> omega
+
+/-! ## Goroutines: informer `Update` / `Release` ∥ the scheduling goroutine's `Allocate` … `Update`
+       (Proofs/C06ExtConc.lean; one `Act` = one critical section of `NodeAllocation.lock`) -/
+
+/-- re-asserting the recorded allocation of a running pod with release + add in ONE critical section
+    leaves every ref-count unchanged: no reader can ever see the pod's CPUs free. -/
+theorem update_running_pod_noop (ops : List Op) (hok : ∀ op ∈ ops, OpOK op) (uid : Nat) (p : PodAlloc)
+    (hf : findPod (run ops).pods uid = some p) (c : Nat) :
+    refOf (updatePod (run ops) p).cpus c = refOf (run ops).cpus c :=
+  updAtomic_refs (inv_foldl ops _ inv_empty hok) hf c
+
+/-- **no interleaving exposes a held CPU** (one-section shape): from any ledger reached by a history,
+    with any number of informer goroutines doing atomic Updates of running pods and Releases, and
+    ONE scheduling goroutine doing `read … commit` rounds (Allocate, later Update of the new pod with
+    CPUs out of its snapshot), under EVERY schedule no CPU is held by more pods than the sharing
+    limit. -/
+theorem update_atomic_safe (env : Env) (hmax : 1 ≤ env.maxRef) (htopo : env.topo.Nodup)
+    (ops : List Op) (hok : ∀ op ∈ ops, OpOK op) (hb : ∀ c, refOf (run ops).cpus c ≤ env.maxRef)
+    (threads : List Thread) (hshape : ShapeOK threads) (hsnap : ∀ t ∈ threads, t.snap = [])
+    (sched : List Nat) (c : Nat) :
+    holdCount (sysRun env { L := run ops, threads := threads } sched).L.pods c ≤ env.maxRef := by
+  have h0 : CInv env { L := run ops, threads := threads } :=
+    ⟨inv_foldl ops _ inv_empty hok, hb, fun t ht => by simp [SnapOK, hsnap t ht]⟩
+  have h := sysRun_inv env hmax htopo sched _ hshape h0
+  rw [← h.inv.refs c]
+  exact h.bound c
+
+/-- the split shape (Release in its own section, lock re-taken for the add) is NOT safe: pod 1 runs on
+    cpu 0; between the informer's two sections the scheduling goroutine reads {0, 1} as available and
+    then gives cpu 0 to pod 2. -/
+theorem update_split_counterexample :
+    ¬ (∀ (env : Env) (L : Ledger) (threads : List Thread) (sched : List Nat), 1 ≤ env.maxRef → Inv L →
+        (∀ c, refOf L.cpus c ≤ env.maxRef) →
+        ∀ c, refOf (sysRun env { L := L, threads := threads } sched).L.cpus c ≤ env.maxRef) := by
+  intro h
+  have := h { topo := [0, 1], maxRef := 1, reserved := [] }
+    (run [.upd { uid := 1, excl := 0, cpus := [0], numa := [] }])
+    [{ prog := [.read, .commit 2 1] }, { prog := [.updRelease 1, .updAdd] }] [1, 0, 1, 0] (by decide)
+    (inv_foldl _ _ inv_empty (by intro op hop; simp at hop; subst hop; simp [OpOK, PodOK]))
+    (by
+      intro c
+      have e : (run [.upd { uid := 1, excl := 0, cpus := [0], numa := [] }]).cpus = [(0, { ref := 1, excl := 0 })] := by
+        decide
+      rw [e]
+      by_cases hc : 0 = c <;> simp [refOf, cpuGet, hc]) 0
+  revert this; decide
+
+/-- what is NOT atomic in the code as it is: `Allocate`'s read and the later `Update` are two sections,
+    so TWO scheduling goroutines could hand out the same CPU — the premise "one scheduling goroutine"
+    (scheduling cycles are serialized) of `update_atomic_safe` is needed. -/
+theorem two_schedulers_counterexample :
+    ¬ (∀ (env : Env) (threads : List Thread) (sched : List Nat), 1 ≤ env.maxRef →
+        (∀ t ∈ threads, ∀ a ∈ t.prog, isSplit a = false) →
+        ∀ c, refOf (sysRun env { L := Ledger.empty, threads := threads } sched).L.cpus c ≤ env.maxRef) := by
+  intro h
+  have := h { topo := [0, 1], maxRef := 1, reserved := [] }
+    [{ prog := [.read, .commit 1 1] }, { prog := [.read, .commit 2 1] }] [0, 1, 0, 1] (by decide)
+    (by intro t ht a ha; simp at ht; rcases ht with rfl | rfl <;> simp at ha <;> rcases ha with rfl | rfl <;> rfl) 0
+  revert this; decide
+
+-- non-vacuity of `update_atomic_safe`: the same threads in the one-section shape, same schedule
+example :
+    let env : Env := { topo := [0, 1], maxRef := 1, reserved := [] }
+    let ths : List Thread := [{ prog := [.read, .commit 2 1] }, { prog := [.updAtomic 1, .release 7] }]
+    ShapeOK ths ∧
+    (sysRun env { L := run [.upd { uid := 1, excl := 0, cpus := [0], numa := [] }], threads := ths } [1, 0, 1, 0]).L.pods.map
+      (fun p => (p.uid, p.cpus)) = [(2, [1]), (1, [0])] := by
+  refine ⟨⟨?_, ?_⟩, by decide⟩
+  · intro t ht a ha; simp at ht; rcases ht with rfl | rfl <;> simp at ha <;> rcases ha with rfl | rfl <;> rfl
+  · intro i t hi h0
+    match i, hi with
+    | 1, hi => simp at hi; subst hi; exact ⟨by intro a ha; simp at ha; rcases ha with rfl | rfl <;> rfl, rfl⟩
+    | 0, _ => exact absurd rfl h0
+    | (n + 2), hi => simp at hi
+
 /-! ## Layer C — picker (`takeCPUs`, Model/C06Pick.lean)
 
 Full statement aimed at (DESIGN §4 C06):
@@ -337,6 +472,72 @@ theorem take_exact_partial_singles (ctx : PickCtx) {avail : List Nat} {n : Int} 
     Good avail n (takeSingles ctx a cs).2 ∧
     ((takeSingles ctx a cs).1 = true → (takeSingles ctx a cs).2.isSatisfied = true) :=
   takeSingles_good ctx cs a h hl
+
+/-! ### the glue `Allocate → allocateCPUSet` and the policy check (Model/C06Alloc.lean)
+
+`alloc_exact` and `policy_sound` in the form they can be proved now: the glue is proved for ALL ledgers,
+requests and NUMA allocations, with the picker entering through its contract `TakeOK` (the statement
+`take_exact` above for `takePreferredCPUs` without restored CPUs — still partial, see the head of
+this section); `policy_sound` is proved in full for both policies (FullPCPUs by a counting argument
+over a topology whose cores have at most CPUsPerCore CPUs). -/
+
+/-- **alloc_exact**: a successful `allocateCPUSet` — through the per-NUMA-node loop or in one go —
+    returns exactly `numCPUsNeeded` distinct CPUs, all available to the pod in the ledger of that
+    moment, and when a bind policy is required the set passes `satisfiedRequiredCPUBindPolicy`. -/
+theorem alloc_exact_partial (cfg : NodeCfg) (L : Ledger) (req : AllocReq) (numaNodes : List (Nat × Int))
+    (htake : TakeOK (cfg.pickCtx req.excl) (req.bind == 1) (allocatedInfos cfg L)) (hn : 0 ≤ req.ncpu)
+    (S : List Nat) (h : allocateCPUSet cfg L req numaNodes = some S) :
+    (S.length : Int) = req.ncpu ∧ S.Nodup ∧
+    (∀ c ∈ S, c ∈ availableCPUs cfg.cpuIds L.cpus cfg.maxRef cfg.reserved []) ∧
+    (req.required = true → satisfiedPolicy req.bind cfg.coreOf cfg.cpc S = true) :=
+  allocateCPUSet_exact cfg L req numaNodes htake hn S h
+
+/-- what `Allocate` returns is `Drawn` (premise of `share_limit`) for the ledger it was computed on:
+    so a history in which every pod enters through Allocate + Update never exceeds the sharing limit. -/
+theorem allocate_drawn_partial (cfg : NodeCfg) (L : Ledger) (req : AllocReq)
+    (htake : TakeOK (cfg.pickCtx req.excl) (req.bind == 1) (allocatedInfos cfg L)) (hn : 0 ≤ req.ncpu)
+    (p : PodAlloc) (h : allocate cfg L req = some p) :
+    Drawn cfg.cpuIds cfg.maxRef cfg.reserved L (.add p) := by
+  intro _
+  have := allocate_cpus_drawn cfg L req htake hn p h
+  exact ⟨this.2.1, this.2.2.1⟩
+
+/-- **policy_sound**: a required policy that `satisfiedRequiredCPUBindPolicy` reports satisfied really
+    is.  SpreadByPCPUs: no two of the CPUs are on one core.  FullPCPUs: on a topology `T`
+    (duplicate-free CPU ids) whose cores have at most `cpc` = CPUsPerCore CPUs, a duplicate-free CPU
+    set inside `T` contains, with every CPU, ALL CPUs of that CPU's core. -/
+theorem policy_sound (core : Nat → Nat) (cpc : Nat) (T cpus : List Nat) (hT : T.Nodup)
+    (hreg : ∀ k, (T.filter (fun c => core c == k)).length ≤ cpc)
+    (hnd : cpus.Nodup) (hsub : ∀ c ∈ cpus, c ∈ T) :
+    (satisfiedPolicy 2 core cpc cpus = true → (cpus.map core).Nodup) ∧
+    (satisfiedPolicy 1 core cpc cpus = true → ∀ c ∈ cpus, ∀ c' ∈ T, core c' = core c → c' ∈ cpus) :=
+  ⟨spread_sound core cpc cpus, full_sound core cpc T cpus hT hreg hnd hsub⟩
+
+-- non-vacuity: 4 cores x 2 threads; {2,3,6,7} is accepted as FullPCPUs, {2,3,6} and {0,2} are not / are Spread
+example :
+    satisfiedPolicy 1 (· / 2) 2 [2, 3, 6, 7] = true ∧ satisfiedPolicy 1 (· / 2) 2 [2, 3, 6] = false ∧
+    satisfiedPolicy 2 (· / 2) 2 [0, 2] = true ∧ satisfiedPolicy 2 (· / 2) 2 [2, 3] = false ∧
+    (∀ k, ((List.range 8).filter (fun c => c / 2 == k)).length ≤ 2) := by
+  refine ⟨by decide, by decide, by decide, by decide, fun k => ?_⟩
+  by_cases h : k < 4
+  · have : k = 0 ∨ k = 1 ∨ k = 2 ∨ k = 3 := by omega
+    rcases this with rfl | rfl | rfl | rfl <;> decide
+  · have : (List.range 8).filter (fun c => c / 2 == k) = [] := by
+      apply List.filter_eq_nil_iff.mpr
+      intro c hc
+      have : c < 8 := List.mem_range.mp hc
+      simp; omega
+    simp [this]
+
+-- non-vacuity: 1 socket x 2 nodes x 2 cores x 2 threads, ratio 3/2, a required-FullPCPUs pod with NUMA hint {1}
+example :
+    let topo : List CpuI := (List.range 8).map fun c => { cpu := c, core := c / 2, node := c / 4, socket := 0 }
+    let cfg : NodeCfg := { topo := topo, cpc := 2, cpn := 4, cps := 8, maxRef := 1, most := true, reserved := [5],
+                           caps := [(0, 4000), (16, 4000)], num := 3, den := 2 }
+    let req : AllocReq := { uid := 1, excl := 0, bind := 1, required := true, cpuBind := true, ncpu := 2,
+                            hint := some [1], reqs := [(0, 2000)] }
+    cfg.capacity = [(0, 6000), (16, 6000)] ∧
+    (allocate cfg Ledger.empty req).map (fun p => (p.cpus, p.numa)) = some ([6, 7], [(16, 2000)]) := by decide
 
 -- non-vacuity + regression: 3 sockets x 4 cores x 2 threads, free {2-7, 8-11, 16-19}, request 9 CPUs with
 -- FullPCPUs (the input on which the unrepaired loop returned 10 CPUs) gives exactly 9 CPUs of the free set.
